@@ -39,6 +39,13 @@ Lin(p) ==
         /\ \E res \in {"ok", "notfound", "err"} :
              /\ DeleteStrict(live, o.k, o.c, res, live')
              /\ pend' = [pend EXCEPT ![p] = [st |-> "done", op |-> "delete", res |-> res]]
+     \/ /\ o.op = "sdelete"    \* Store-level delete: reports whether it removed something
+        /\ \/ /\ live[o.k] # None /\ live' = [live EXCEPT ![o.k] = None]
+              /\ pend' = [pend EXCEPT ![p] = [st |-> "done", op |-> "delete", res |-> "removed"]]
+           \/ /\ live[o.k] = None /\ live' = live
+              /\ pend' = [pend EXCEPT ![p] = [st |-> "done", op |-> "delete", res |-> "noop"]]
+           \/ /\ live' = live
+              /\ pend' = [pend EXCEPT ![p] = [st |-> "done", op |-> "delete", res |-> "err"]]
      \/ /\ o.op = "read"
         /\ pend' = [pend EXCEPT ![p] = [st |-> "done", op |-> "read", k |-> o.k, c |-> o.c, snap |-> live]]
         /\ UNCHANGED live
